@@ -32,6 +32,7 @@ type ghostCfg struct {
 	trackInit bool
 	pb        ssa.Value // the PacketBuilder parameter
 	noGlobal  bool
+	readOnly  bool // accessor / renderer: nothing that existed before the call may be written
 }
 
 func rootOfAddr(v ssa.Value) ssa.Value {
@@ -67,6 +68,18 @@ func (c *fnCtx) frameCheck(addr ssa.Value, pos token.Pos) {
 			c.root().addOblAt(c, "frame-in", pos, "(not (= "+p.P.Arr+" "+g.inputArr+"))", "")
 		}
 	}
+	if g.readOnly && c.eng.wantClass("frame-ro") {
+		p := c.val(addr)
+		tgt := p.T[0]
+		if p.P != nil && p.P.Arr != "" {
+			tgt = p.P.Arr
+		} else if p.P != nil && !p.P.Op {
+			tgt = p.P.Idx
+		}
+		if _, isAlloc := rootOfAddr(addr).(*ssa.Alloc); !isAlloc {
+			c.root().addOblAt(c, "frame-ro", pos, "(> (owner "+tgt+") "+c.em.wm0+")", "")
+		}
+	}
 }
 
 func (c *fnCtx) root() *fnCtx {
@@ -99,6 +112,9 @@ func (r *fnCtx) addOblAt(site *fnCtx, class string, pos token.Pos, cond, text st
 }
 
 func (c *fnCtx) appendFrame(in ssa.Instruction, cc *ssa.CallCommon, s *Val, inplace, tlen string) {
+	if g := c.ghostCfg(); g != nil && g.readOnly && c.eng.wantClass("frame-ro") && !(c.mute && c.inlineOf == nil) {
+		c.root().addOblAt(c, "frame-ro", in.Pos(), fmt.Sprintf("(not (and %s (> %s 0) (<= (owner %s) %s)))", inplace, tlen, s.T[0], c.em.wm0), "")
+	}
 	g := c.ghostCfg()
 	if g == nil || g.inputArr == "" || !c.eng.wantClass("frame-in") {
 		return
@@ -107,6 +123,9 @@ func (c *fnCtx) appendFrame(in ssa.Instruction, cc *ssa.CallCommon, s *Val, inpl
 }
 
 func (c *fnCtx) copyFrame(in ssa.Instruction, cc *ssa.CallCommon, d *Val, n string) {
+	if g := c.ghostCfg(); g != nil && g.readOnly && c.eng.wantClass("frame-ro") && !(c.mute && c.inlineOf == nil) {
+		c.root().addOblAt(c, "frame-ro", in.Pos(), fmt.Sprintf("(not (and (> %s 0) (<= (owner %s) %s)))", n, d.T[0], c.em.wm0), "")
+	}
 	g := c.ghostCfg()
 	if g == nil || g.inputArr == "" || !c.eng.wantClass("frame-in") {
 		return
@@ -115,6 +134,9 @@ func (c *fnCtx) copyFrame(in ssa.Instruction, cc *ssa.CallCommon, d *Val, n stri
 }
 
 func (c *fnCtx) writeFrame(in ssa.Instruction, s *Val, n string) {
+	if g := c.ghostCfg(); g != nil && g.readOnly && c.eng.wantClass("frame-ro") && !(c.mute && c.inlineOf == nil) {
+		c.root().addOblAt(c, "frame-ro", in.Pos(), fmt.Sprintf("(not (and (> %s 0) (<= (owner %s) %s)))", n, s.T[0], c.em.wm0), "")
+	}
 	g := c.ghostCfg()
 	if g == nil || g.inputArr == "" || !c.eng.wantClass("frame-in") {
 		return
@@ -246,21 +268,23 @@ func (c *fnCtx) pbSet(i int, v string) {
 // slots: 0 = NextDecoder/tail done, 1 = layer added, 2 = error layer set
 func (c *fnCtx) pbEvent(in ssa.Instruction, name string, cc *ssa.CallCommon, args []*Val) {
 	g := c.ghostCfg()
-	if g == nil || g.pb == nil || !c.eng.wantClass("typestate") {
+	if g == nil || g.pb == nil {
 		return
 	}
 	root := c.root()
 	pos := in.Pos()
 	switch name {
 	case "AddLayer":
-		root.addOblAt(c, "typestate", pos, "(and (= "+c.pbGet(0)+" 0) (= "+c.pbGet(2)+" 0))", "AddLayer before NextDecoder / no layer after error layer")
+		root.addOblAt(c, "typestate", pos, "(= "+c.pbGet(0)+" 0)", "AddLayer before NextDecoder")
+		root.addOblAt(c, "typestate-err", pos, "(= "+c.pbGet(2)+" 0)", "no layer added after an error layer")
 		c.pbSet(1, "1")
 	case "SetLinkLayer", "SetNetworkLayer", "SetTransportLayer", "SetApplicationLayer":
 		root.addOblAt(c, "typestate", pos, "(= "+c.pbGet(0)+" 0)", name+" before NextDecoder")
 	case "SetErrorLayer":
 		c.pbSet(2, "1")
 	case "NextDecoder":
-		root.addOblAt(c, "typestate", pos, "(and (= "+c.pbGet(0)+" 0) (= "+c.pbGet(2)+" 0))", "at most one NextDecoder, none after an error layer")
+		root.addOblAt(c, "typestate", pos, "(= "+c.pbGet(0)+" 0)", "at most one NextDecoder")
+		root.addOblAt(c, "typestate-err", pos, "(= "+c.pbGet(2)+" 0)", "no NextDecoder after an error layer")
 		c.pbSet(0, "1")
 		if ci, ok := in.(*ssa.Call); ok && c.inlineOf == nil {
 			if !tailUse(ci) {
@@ -302,3 +326,234 @@ func tailUse(ci *ssa.Call) bool {
 
 var _ = types.Typ
 var _ = strings.TrimSpace
+
+// paramWrites: which slice-typed parameters a function may write through (syntactic, transitive over static
+// in-module callees); nil result means unknown (treated as "may write every slice argument").
+func (e *Engine) paramWrites(f *ssa.Function) map[int]bool {
+	e.pwMu.Lock()
+	if r, ok := e.pw[f]; ok {
+		e.pwMu.Unlock()
+		return r
+	}
+	e.pw[f] = map[int]bool{} // recursion guard: optimistic, fixed below
+	e.pwMu.Unlock()
+	if f.Blocks == nil {
+		return nil
+	}
+	res := map[int]bool{}
+	unknown := false
+	// origin of a value: parameter index it is derived from by slicing / phi, or -1
+	var origin func(v ssa.Value, depth int) int
+	origin = func(v ssa.Value, depth int) int {
+		if depth > 8 {
+			return -2
+		}
+		switch x := v.(type) {
+		case *ssa.Parameter:
+			for i, p := range f.Params {
+				if p == x {
+					return i
+				}
+			}
+		case *ssa.Slice:
+			return origin(x.X, depth+1)
+		case *ssa.Phi:
+			o := -1
+			for _, ed := range x.Edges {
+				if ed == v {
+					continue
+				}
+				oo := origin(ed, depth+1)
+				if oo == -2 {
+					return -2
+				}
+				if oo >= 0 {
+					if o >= 0 && o != oo {
+						return -2
+					}
+					o = oo
+				}
+			}
+			return o
+		case *ssa.UnOp:
+			// loaded from memory: a field may alias a parameter's array (e.g. layer.Contents) -> unknown origin
+			if _, isSl := x.Type().Underlying().(*types.Slice); isSl {
+				return -3
+			}
+		case *ssa.Call, *ssa.Extract:
+			if _, isSl := v.Type().Underlying().(*types.Slice); isSl {
+				return -3
+			}
+		}
+		return -1
+	}
+	mark := func(v ssa.Value) {
+		switch o := origin(v, 0); {
+		case o >= 0:
+			res[o] = true
+		case o == -2:
+			unknown = true
+		}
+	}
+	for _, b := range f.Blocks {
+		for _, in := range b.Instrs {
+			switch x := in.(type) {
+			case *ssa.Store:
+				if ia, ok := x.Addr.(*ssa.IndexAddr); ok {
+					mark(ia.X)
+				}
+			case ssa.CallInstruction:
+				cc := x.Common()
+				if bi, ok := cc.Value.(*ssa.Builtin); ok {
+					if bi.Name() == "copy" || bi.Name() == "append" || bi.Name() == "clear" {
+						mark(cc.Args[0])
+					}
+					continue
+				}
+				if cc.IsInvoke() {
+					for _, a := range cc.Args {
+						if _, isSl := a.Type().Underlying().(*types.Slice); isSl && origin(a, 0) >= 0 {
+							n := cc.Method.Name()
+							if n == "Read" || n == "ReadFull" {
+								mark(a)
+							}
+						}
+					}
+					continue
+				}
+				cal := cc.StaticCallee()
+				if cal == nil {
+					continue
+				}
+				var cw map[int]bool
+				if e.isModule(cal) && cal.Blocks != nil {
+					cw = e.paramWrites(cal)
+				} else {
+					name := cal.String()
+					cw = map[int]bool{}
+					if !pureExternal(name) && !knownReadOnlySliceUser(name) {
+						for i := range cc.Args {
+							cw[i] = true
+						}
+					}
+				}
+				for i, a := range cc.Args {
+					if _, isSl := a.Type().Underlying().(*types.Slice); !isSl {
+						continue
+					}
+					if cw == nil || cw[i] {
+						mark(a)
+					}
+				}
+			}
+		}
+	}
+	if unknown {
+		res = nil
+	}
+	e.pwMu.Lock()
+	e.pw[f] = res
+	e.pwMu.Unlock()
+	return res
+}
+
+// callFrame: a call that may write through a slice argument must not receive (a window of) the decoder input.
+func (c *fnCtx) callFrame(in ssa.Instruction, callee *ssa.Function, cc *ssa.CallCommon, args []*Val) {
+	g := c.ghostCfg()
+	if g == nil || (g.inputArr == "" && !g.readOnly) || (c.mute && c.inlineOf == nil) {
+		return
+	}
+	var cw map[int]bool
+	known := false
+	if callee != nil && c.eng.isModule(callee) && callee.Blocks != nil {
+		cw = c.eng.paramWrites(callee)
+		known = cw != nil
+	} else if callee != nil {
+		name := callee.String()
+		known = true
+		cw = map[int]bool{}
+		if !pureExternal(name) && !knownReadOnlySliceUser(name) && !strings.HasSuffix(name, "ndian).Uint16") && !strings.HasSuffix(name, "ndian).Uint32") && !strings.HasSuffix(name, "ndian).Uint64") {
+			for i := range cc.Args {
+				cw[i] = true
+			}
+		}
+	}
+	for i, a := range args {
+		if a.K != KSlice || i >= len(cc.Args) {
+			continue
+		}
+		if known && !cw[i] {
+			continue
+		}
+		if g.inputArr != "" && c.eng.wantClass("frame-in") {
+			c.root().addOblAt(c, "frame-in", in.Pos(), fmt.Sprintf("(not (and (> %s 0) (= %s %s)))", a.T[2], a.T[0], g.inputArr), "")
+		}
+		if g.readOnly && c.eng.wantClass("frame-ro") {
+			c.root().addOblAt(c, "frame-ro", in.Pos(), fmt.Sprintf("(not (and (> %s 0) (<= (owner %s) %s)))", a.T[3], a.T[0], c.em.wm0), "")
+		}
+	}
+}
+
+// pbUses: PacketBuilder methods a function may invoke (transitively through static in-module callees that
+// receive a PacketBuilder). "*" means unknown (the builder escapes into something we cannot follow).
+func (e *Engine) pbUses(f *ssa.Function, depth int) map[string]bool {
+	e.pwMu.Lock()
+	if r, ok := e.pbU[f]; ok {
+		e.pwMu.Unlock()
+		return r
+	}
+	e.pbU[f] = map[string]bool{}
+	e.pwMu.Unlock()
+	res := map[string]bool{}
+	if f.Blocks == nil || depth > 6 {
+		res["*"] = true
+		return res
+	}
+	for _, b := range f.Blocks {
+		for _, in := range b.Instrs {
+			ci, ok := in.(ssa.CallInstruction)
+			if !ok {
+				continue
+			}
+			cc := ci.Common()
+			if cc.IsInvoke() {
+				if strings.HasSuffix(cc.Value.Type().String(), "gopacket.PacketBuilder") {
+					res[cc.Method.Name()] = true
+				} else {
+					for _, a := range cc.Args {
+						if strings.HasSuffix(a.Type().String(), "gopacket.PacketBuilder") {
+							// e.g. Decoder.Decode(data, p): a decoder runs on the builder
+							res["NextDecoder"] = true
+						}
+					}
+				}
+				continue
+			}
+			passes := false
+			for _, a := range cc.Args {
+				if strings.HasSuffix(a.Type().String(), "gopacket.PacketBuilder") {
+					passes = true
+				}
+			}
+			if !passes {
+				continue
+			}
+			cal := cc.StaticCallee()
+			if cal == nil || !e.isModule(cal) {
+				res["*"] = true
+				continue
+			}
+			for k := range e.pbUses(cal, depth+1) {
+				res[k] = true
+			}
+		}
+	}
+	e.pwMu.Lock()
+	e.pbU[f] = res
+	e.pwMu.Unlock()
+	return res
+}
+
+func pbStructural(u map[string]bool) bool {
+	return u["*"] || u["NextDecoder"] || u["AddLayer"] || u["SetErrorLayer"] || u["SetLinkLayer"] || u["SetNetworkLayer"] || u["SetTransportLayer"] || u["SetApplicationLayer"]
+}
